@@ -1,5 +1,6 @@
 import Gql.Proofs.SchemaBuild6
 import Gql.Proofs.SchemaDiff3
+import Gql.Proofs.SchemaText6
 /-!
 # C17 — A schema survives printing to SDL and rebuilding
 
@@ -8,10 +9,12 @@ Model: `Gql.Types.schemaToDefs` (the definitions `print_schema` emits), `Gql.Typ
 (`build_ast_schema` + the builders of `extend_schema`), `Gql.Types.changes`
 (`find_schema_changes`), `Gql.Types.WFSchema` (decidable well-formedness).
 
-Level: the theorems are about schema *content* and the structured definition AST.  The text
-layer — `print_schema`'s layout, block strings, quoted strings, the parser — is **not** proved
-here: it is C08's print/parse round trip, tied to this model by the correspondence run of
-`checks/c17.py` (model definitions = `parse(print_schema(s))` for every generated schema).
+Level: C17-1 … C17-5 are about schema *content* and the structured definition AST.  The text
+layer is the section "SDL text" at the end: `Gql.Types.PrintSchema.printSchemaText` models
+print_schema.py down to the code points (tied to the code by the `text` stream of `checks/c17.py`:
+model text = `print_schema(s)` for every generated schema), and `text_lexes` / `text_roundtrip` /
+`text_build_roundtrip` prove, with C08's lexer and parser models, that this text parses to the
+definitions and builds to the same schema (lemmas: `Gql/Proofs/SchemaText1-5.lean`).
 -/
 namespace Gql.Props.C17
 open Gql Gql.Types
@@ -105,5 +108,144 @@ example : buildFromDefs (schemaToDefs exampleSchema) = .ok exampleSchema :=
 -- the schema block is needed here (non-default root name), and is omitted for conventional names
 example : (schemaDefOf exampleSchema).length = 1 := by decide
 example : schemaDefOf { exampleSchema with desc := none, query := some [81, 117, 101, 114, 121] } = [] := by decide
+
+/-! ## SDL text
+
+`print_schema` does not print through `print_ast`: it has its own layout (a blank line before
+every described item of a block but the first, argument lists broken into lines exactly when an
+argument has a description, default values printed by `print_ast` but not re-indented).  The
+theorems below are therefore proved on `print_schema`'s own text, token by token, and then use
+C08's parser theorem, which only sees tokens. -/
+
+open Gql.Text Gql.Syntax Gql.Types.PrintSchema
+
+/-- The hypothesis of the text theorems: the definitions `print_schema` emits, translated to C08's
+typed document trees (`defsToGDefs`), are well formed in C08's sense (`Exec.gdefsWf`) — names are
+lexically Names, descriptions / deprecation reasons / specifiedBy URLs / string defaults are
+sequences of Unicode scalar values (the lexer rejects lone surrogates: assumption of the check),
+block descriptions are block-representable (C08 `printable_representable`: implied by
+`is_printable_as_block_string`), default values are well-formed const literals (they come from
+the parser or from `value_to_literal`), type references are parser-shaped (no `T!!`), enum values
+are not `true`/`false`/`null` (`assert_enum_value_name`), directive locations are in the parser's
+table, and a deprecated directive definition needs `dd` = `experimental_directives_on_directive_definitions`
+(the rebuild in the check parses with that flag).  `fa` is irrelevant here (no fragments). -/
+abbrev TextWF (fa dd : Bool) (s : Schema) : Prop := Gql.Types.PrintSchema.TextWF fa dd s
+
+/-- **C17-6 (`render_lex` for print_schema).**  For every schema whose printed definitions are
+well formed (`TextWF`), all widths with `object ≥ 4`: the text `print_schema` prints lexes to
+exactly the tokens of the definitions `schemaToDefs s` (as C08 document trees) — every layout
+`print_schema` chooses, all six type kinds, directive definitions, the schema block; no token is
+merged, split or lost, every string token carries its value. -/
+theorem text_lexes (w : Widths) (hw : 4 ≤ w.object) (fa dd : Bool) (s : Schema) (h : TextWF fa dd s) :
+    Lexes true (printSchemaText w s) (Exec.gdefsKvs true (defsToGDefs (schemaToDefs s))) :=
+  Gql.Types.PrintSchema.text_lexes w hw (by decide)
+    (by decide) fa dd s h
+
+/-- **C17-7 (`text_roundtrip`: parse ∘ print_schema).**  For every well-formed schema (`WFSchema`)
+whose printed definitions are well formed (`TextWF`), with the real parser model (C01's
+`parseSource`, any flags, no `max_tokens`): parsing the text `print_schema` prints succeeds and
+gives exactly the document of the definitions `schemaToDefs s`. -/
+theorem text_roundtrip (w : Widths) (hw : 4 ≤ w.object) (cfg : Cfg) (hm : cfg.maxTokens = none)
+    (s : Schema) (hs : WFSchema s = true) (h : TextWF cfg.fragArgs cfg.dirOnDir s) :
+    parseSource .document cfg (printSchemaText w s) =
+      .ok (Exec.gdocAst cfg.fragArgs cfg.dirOnDir (defsToGDefs (schemaToDefs s))) :=
+  Gql.Types.PrintSchema.text_parse w hw (by decide)
+    (by decide) cfg hm s hs h
+
+/-- **C17-8 (build ∘ parse ∘ print_schema = id).**  Composition of C17-7 with C17-1: the printed
+text parses to the document of some definitions `defs`, and building `defs` gives back exactly
+the schema. -/
+theorem text_build_roundtrip (w : Widths) (hw : 4 ≤ w.object) (cfg : Cfg) (hm : cfg.maxTokens = none)
+    (s : Schema) (hs : WFSchema s = true) (h : TextWF cfg.fragArgs cfg.dirOnDir s) :
+    ∃ defs : List Gql.Types.Def,
+      parseSource .document cfg (printSchemaText w s) =
+        .ok (Exec.gdocAst cfg.fragArgs cfg.dirOnDir (defsToGDefs defs)) ∧
+      buildFromDefs defs = .ok s :=
+  ⟨schemaToDefs s, text_roundtrip w hw cfg hm s hs h, build_schemaToDefs s hs⟩
+
+/-- **C17-9 (parse ∘ print_schema gives the definitions; build gives the schema).**  `gdefsToDefs`
+reads a parsed document (C08's typed trees) as C17's definition AST, as the harness does with the
+real parse result.  For every well-formed schema whose printed definitions are well formed and
+whose default values are proper literals (`schemaShaped`, decidable: list items and object fields
+are `… vnil`-terminated chains — what the parser and `value_to_literal` produce): the printed text
+parses to a document `gdefs` that reads back as exactly the definitions `schemaToDefs s`, and
+building what was read gives back exactly the schema `s`. -/
+theorem text_roundtrip_defs (w : Widths) (hw : 4 ≤ w.object) (cfg : Cfg) (hm : cfg.maxTokens = none)
+    (s : Schema) (hs : WFSchema s = true) (h : TextWF cfg.fragArgs cfg.dirOnDir s)
+    (hsh : schemaShaped s = true) :
+    ∃ gdefs : List GDef,
+      parseSource .document cfg (printSchemaText w s) = .ok (Exec.gdocAst cfg.fragArgs cfg.dirOnDir gdefs) ∧
+      gdefsToDefs gdefs = schemaToDefs s ∧
+      buildFromDefs (gdefsToDefs gdefs) = .ok s := by
+  refine ⟨defsToGDefs (schemaToDefs s), text_roundtrip w hw cfg hm s hs h, gdefsToDefs_schemaToDefs s hsh, ?_⟩
+  rw [gdefsToDefs_schemaToDefs s hsh]
+  exact build_schemaToDefs s hs
+
+-- Non-vacuity: a schema with a described schema block, a deprecated repeatable directive with an
+-- argument, an object type whose second field and whose argument carry descriptions (multi-line
+-- argument layout, blank line before the described item), list / object / enum / boolean / string
+-- defaults, an interface, a union, an enum with a deprecated value, a OneOf input object and a
+-- scalar with a specifiedBy URL satisfies both hypotheses.
+def exampleText : Schema :=
+  { desc := some [115]
+    query := some [81]
+    mutation := none
+    subscription := none
+    directives := [
+      { name := [100], desc := some [97, 10, 98], repeatable := true, locations := [S "FIELD", S "QUERY"],
+        depr := some [111],
+        args := [{ name := [97], desc := none, type := .named [73, 110], default := none, depr := none }] }]
+    types := [
+      .interface [78] none [] [{ name := [102], desc := none, args := [], type := .named (S "String"), depr := none }],
+      .object [81] (some [113, 34]) [[78]] [
+        { name := [102], desc := none,
+          args := [{ name := [97], desc := some [120, 10, 121], type := .list (.nonNull (.named [73, 110])),
+                     default := some (.list (.lcons (.obj (.fcons [120] (.enum [65]) .vnil)) .vnil)), depr := none },
+                   { name := [98], desc := none, type := .named (S "String"), default := some (.str [122] false),
+                     depr := some Gql.Generated.SchemaConsts.defaultDeprecationReason }],
+          type := .nonNull (.named (S "String")), depr := some [111] },
+        { name := [103], desc := some [34], args := [], type := .named [69],
+          depr := some Gql.Generated.SchemaConsts.defaultDeprecationReason }],
+      .union [85] none [[81]],
+      .enum [69] none [{ name := [65], desc := some [100], depr := none }, { name := [66], desc := none, depr := some [] }],
+      .scalar [83] none (some [117]),
+      .input [73, 110] (some []) true [
+        { name := [120], desc := none, type := .named [69], default := some (.bool true), depr := none }] ] }
+
+example : WFSchema exampleText = true := by decide
+example : schemaShaped exampleText = true := by decide
+
+example : TextWF false true exampleText := by
+  apply Gql.Types.PrintSchema.textWF_of_tdefs
+  intro td htd
+  have e : schemaTDefs exampleText = [
+      .schema (some ([115], true)) [] [(S "query", [81])],
+      .directive (some ([97, 10, 98], true)) [100] [⟨none, [97], .named [73, 110], none, []⟩]
+        [⟨S "deprecated", [(S "reason", .str [111] false)]⟩] true [S "FIELD", S "QUERY"],
+      .object true none [78] [] [] [⟨none, [102], [], .named (S "String"), []⟩],
+      .object false (some ([113, 34], true)) [81] [[78]] [] [
+        ⟨none, [102],
+          [⟨some ([120, 10, 121], true), [97], .list (.nonNull (.named [73, 110])),
+              some (.list [.obj [([120], .enum [65])]]), []⟩,
+           ⟨none, [98], .named (S "String"), some (.str [122] false), [⟨S "deprecated", []⟩]⟩],
+          .nonNull (.named (S "String")), [⟨S "deprecated", [(S "reason", .str [111] false)]⟩]⟩,
+        ⟨some ([34], true), [103], [], .named [69], [⟨S "deprecated", []⟩]⟩],
+      .union none [85] [] [[81]],
+      .enum none [69] [] [⟨some ([100], true), [65], []⟩, ⟨none, [66], [⟨S "deprecated", [(S "reason", .str [] false)]⟩]⟩],
+      .scalar none [83] [⟨S "specifiedBy", [(S "url", .str [117] false)]⟩],
+      .input (some ([], true)) [73, 110] [⟨S "oneOf", []⟩] [⟨none, [120], .named [69], some (.bool true), []⟩]] := by
+    rfl
+  rw [e] at htd
+  simp only [List.mem_cons, List.not_mem_nil, or_false] at htd
+  rcases htd with rfl | rfl | rfl | rfl | rfl | rfl | rfl | rfl <;>
+  simp (config := { decide := true }) [Exec.tdefWf, Exec.fdWf, Exec.evWf, Exec.ivdsWf,
+    Exec.namesWf, Exec.isLocation, Exec.isOpType, Exec.dirsWfC, Exec.dirWfC, Exec.argsWfC,
+    Val.wfFields, Val.wfList, Val.wf, Exec.varDefWf, Exec.descWf, Ty.wf, TyP.shaped]
+
+
+-- the model's text for one of its definitions (a described first item, a deprecated value)
+example : printTypeDef Widths.generated
+    (.enum [69] none [{ name := [65], desc := some [100], depr := none }, { name := [66], desc := none, depr := some [] }]) =
+    S "enum E {\n  \"\"\"d\"\"\"\n  A\n  B @deprecated(reason: \"\")\n}" := by decide
 
 end Gql.Props.C17
